@@ -32,6 +32,7 @@ type SynthEvent struct {
 	MarkOut []byte `json:"mark_out"` // marker option of the response returned
 	ReqXid  string `json:"req_xid"`
 	ReqHex  string `json:"req_hex,omitempty"` // serialisation of the request object the handler received
+	OutHex  string `json:"out_hex,omitempty"` // serialisation of the response at the moment the handler returned it
 }
 
 type synthRecorder struct {
@@ -89,6 +90,11 @@ func registerSynth(_ []SynthPlugin, rec *synthRecorder) {
 				if resp != nil {
 					resp.UpdateOption(dhcpv4.OptGeneric(dhcpv4.GenericOptionCode(synthOpt4), append(mark4(resp), byte(id))))
 				}
+			case "marknak": // like modify, and the response becomes a DHCPNAK
+				if resp != nil {
+					resp.UpdateOption(dhcpv4.OptGeneric(dhcpv4.GenericOptionCode(synthOpt4), append(mark4(resp), byte(id))))
+					resp.UpdateOption(dhcpv4.OptMessageType(dhcpv4.MessageTypeNak))
+				}
 			case "replace":
 				if resp != nil {
 					n, err := dhcpv4.FromBytes(resp.ToBytes())
@@ -138,6 +144,9 @@ func registerSynth(_ []SynthPlugin, rec *synthRecorder) {
 				}
 			}
 			e.RespOut, e.Stop, e.MarkOut = fmt.Sprintf("%p", out), stop, mark4(out)
+			if out != nil {
+				e.OutHex = hex.EncodeToString(out.ToBytes())
+			}
 			rec.add(e)
 			return out, stop
 		}, nil
@@ -155,7 +164,7 @@ func registerSynth(_ []SynthPlugin, rec *synthRecorder) {
 				r.UpdateOption(&dhcpv6.OptionGeneric{OptionCode: dhcpv6.OptionCode(synthOpt6), OptionData: v})
 			}
 			switch behav {
-			case "modify":
+			case "modify", "marknak":
 				if resp != nil {
 					add(resp, append(mark6(resp), byte(id)))
 				}
@@ -192,6 +201,9 @@ func registerSynth(_ []SynthPlugin, rec *synthRecorder) {
 				}
 			}
 			e.RespOut, e.Stop, e.MarkOut = fmt.Sprintf("%p", out), stop, mark6(out)
+			if out != nil {
+				e.OutHex = hex.EncodeToString(out.ToBytes())
+			}
 			rec.add(e)
 			return out, stop
 		}, nil
